@@ -140,6 +140,50 @@ func (fr *Frame) nativeCall(b *ssa.BasicBlock, st *State, name string, callee *s
 			fmt.Sprintf("(forall ((i Int)) (=> (and (<= 0 i) (< i (sl_len %s))) (= (select (select %s (sl_arr %s)) (+ (sl_off %s) i)) (select (select %s (sl_arr %s)) (+ (sl_off %s) i)))))", xs, hp, xs, xs, hp, ys, ys))))
 		fc.addFact("true", sImp(r, sEq(fr.bseqOf(st, x), fr.bseqOf(st, y))))
 		return Val{S: r, Typ: resT}, true
+	case "(*encoding/base64.Encoding).EncodedLen", "(*encoding/base64.Encoding).DecodedLen":
+		fr.trust(name + ": a non-negative length for a non-negative argument (uninterpreted function of encoding and argument)")
+		fn := "b64enclen"
+		if strings.HasSuffix(name, "DecodedLen") {
+			fn = "b64declen"
+		}
+		if !fc.declSet["fun:"+fn] {
+			fc.declSet["fun:"+fn] = true
+			fc.decls = append(fc.decls, fmt.Sprintf("(declare-fun %s (Int Int) Int)", fn))
+		}
+		n := fr.scalar(args[1])
+		t := sApp(fn, fr.scalar(args[0]), n)
+		fc.addFact("true", sImp(sApp(">=", n, "0"), sAnd(sApp(">=", t, "0"), sApp("<=", t, sApp("+", sApp("*", "2", n), "4")))))
+		return Val{S: t, Typ: resT}, true
+	case "(*encoding/base64.Encoding).Encode", "(*encoding/base64.Encoding).Decode":
+		fr.trust(name + ": writes only the destination slice; needs a destination of at least EncodedLen/DecodedLen(len(src)) bytes; Decode returns 0 <= n <= DecodedLen(len(src))")
+		enc := strings.HasSuffix(name, ".Encode")
+		fn := "b64declen"
+		if enc {
+			fn = "b64enclen"
+		}
+		if !fc.declSet["fun:"+fn] {
+			fc.declSet["fun:"+fn] = true
+			fc.decls = append(fc.decls, fmt.Sprintf("(declare-fun %s (Int Int) Int)", fn))
+		}
+		recv, dst, srcS := fr.scalar(args[0]), fr.scalar(args[1]), fr.scalar(args[2])
+		need := sApp(fn, recv, sApp("sl_len", srcS))
+		fr.ob("index", src+":dst", b, sApp(">=", sApp("sl_len", dst), need), pos)
+		// the destination's bytes are unknown afterwards
+		h := heapElem(types.Typ[types.Uint8])
+		fc.regVar(h, arr2Sort("Int"))
+		old := fc.get(st, h)
+		row := fc.freshConst("b64row", arrSort("Int"))
+		fr.checkLoopWrite(h, sApp("sl_arr", dst))
+		fc.logWrite(h, sApp("sl_arr", dst))
+		fc.setDef(st, "true", h, sIte(sEq(sApp("sl_len", dst), "0"), old, sStore(old, sApp("sl_arr", dst), row)))
+		if enc {
+			return Val{Typ: resT, IsAg: true}, true
+		}
+		n := fc.freshConst("b64n", "Int")
+		fc.addFact("true", sAnd(sApp("<=", "0", n), sApp("<=", n, need)))
+		errv := fr.havocVal(resT.(*types.Tuple).At(1).Type(), "b64err")
+		fc.addFact("true", fr.typeFacts(errv, st))
+		return Val{Typ: resT, IsAg: true, Agg: []Val{{S: n, Typ: types.Typ[types.Int]}, errv}}, true
 	case "crypto/subtle.ConstantTimeCompare":
 		fr.trust("crypto/subtle.ConstantTimeCompare: 1 iff same length and same bytes, else 0")
 		x, y := args[0], args[1]
@@ -241,6 +285,51 @@ func (fr *Frame) nativeCall(b *ssa.BasicBlock, st *State, name string, callee *s
 		st.vars[hAlloc] = na
 		fr.flushClosed(st)
 		return Val{S: errv, Typ: resT}, true
+	case "encoding/xml.Unmarshal", "(*encoding/xml.Decoder).DecodeElement", "(*encoding/xml.Decoder).Decode":
+		fr.trust(name + ": decodes into the object passed (its fields are overwritten); elements of slices of pointers directly in that object are non-nil; the error is uninterpreted; does not panic on any input")
+		tgt := args[1]
+		if name == "encoding/xml.Unmarshal" {
+			tgt = args[1]
+		}
+		pay, pt := fr.ifaceTarget(tgt)
+		if pt == nil {
+			fc.assumptions[name+" into a destination of unknown dynamic type: only fields at that reference are havocked, in the heaps known so far"] = true
+			fr.havocAnyFields(st, sApp("ipay", fr.scalar(tgt)))
+		} else {
+			tv := Val{S: pay, Typ: pt}
+			fr.havocReach(st, tv)
+			if ptr, isPtr := pt.Underlying().(*types.Pointer); isPtr {
+				if su, isStruct := ptr.Elem().Underlying().(*types.Struct); isStruct {
+					for i := 0; i < su.NumFields(); i++ {
+						sl, isSl := su.Field(i).Type().Underlying().(*types.Slice)
+						if !isSl {
+							continue
+						}
+						if _, elemPtr := sl.Elem().Underlying().(*types.Pointer); !elemPtr {
+							continue
+						}
+						f := fr.specField(tv, su.Field(i).Name(), &SpecEnv{fr: fr, now: st, old: st})
+						fs := fr.scalar(f)
+						h := heapElem(sl.Elem())
+						fc.regVar(h, arr2Sort(sortOf(sl.Elem())))
+						hp := fc.get(st, h)
+						fc.qcount++
+						iv := fmt.Sprintf("qv%dx_xi", fc.qcount)
+						body := fmt.Sprintf("(=> (and (<= 0 %s) (< %s (sl_len %s))) (not (= (select (select %s (sl_arr %s)) (+ (sl_off %s) %s)) 0)))", iv, iv, fs, hp, fs, fs, iv)
+						all := fmt.Sprintf("(forall ((%s Int)) (! %s :pattern ((select (select %s (sl_arr %s)) (+ (sl_off %s) %s)))))", iv, body, hp, fs, fs, iv)
+						fc.addFactQ(fr.reach[b.Index], all, []QInst{{Forall: all, Var: iv, Inst: body, Kind: kIdx}})
+					}
+				}
+			}
+		}
+		errv := fr.havocVal(resT, "xmlerr")
+		fc.addFact("true", fr.typeFacts(errv, st))
+		na := fc.freshConst(hAlloc, "Int")
+		fc.addFact("true", sApp(">=", na, fc.get(st, hAlloc)))
+		fc.logWrite(hAlloc, "")
+		st.vars[hAlloc] = na
+		fr.flushClosed(st)
+		return errv, true
 	case "encoding/asn1.Unmarshal":
 		fr.trust("encoding/asn1.Unmarshal(b, &struct{R,S *big.Int}): error iff b does not start with a SEQUENCE of exactly two INTEGERs; on success R, S are fresh non-nil objects and rest is the remainder")
 		fr.specNative("asn1ok")
